@@ -316,22 +316,29 @@ theorem C03_setup_other_index_range :
 /-- "for every combination of enabled symmetries", image grids with "anisotropic voxels": **which symmetries the
     constructor leaves in force does not depend on which of the x and y voxel sizes is the larger one** — the guard
     `fabs(get_grid_spacing()[2] - get_grid_spacing()[3]) > 2.E-3F` (`float` subtraction included: `f32Round`) is symmetric
-    in the two sizes.  (The correspondence run evaluates this model of the guard on the voxel sizes of every generated
-    image — x larger than y, y larger than x, differences on both sides of the threshold — and compares the effective
-    switches with those the real constructor reports.) -/
-theorem C03_xy_guard_symmetric (f : Flags) (V : Int) (vy vx : Rat) (phi0 tof xy0 : Bool) :
-    f.effectiveVox V vy vx phi0 tof xy0 = f.effectiveVox V vx vy phi0 tof xy0 :=
-  effectiveVox_symm f V vy vx phi0 tof xy0
+    in the two sizes — nor (with the index-range guard of the proposed repair, `r = true`) on which of the two index
+    ranges is which.  (The correspondence run evaluates this model of the guard on the voxel sizes and index ranges of
+    every generated image — x larger than y, y larger than x, differences on both sides of the threshold — and
+    compares the effective switches with those the real constructor reports.) -/
+theorem C03_xy_guard_symmetric (f : Flags) (V : Int) (vy vx : Rat) (r : Bool) (minY maxY minX maxX : Int)
+    (phi0 tof xy0 : Bool) :
+    f.effectiveImg V vy vx r minY maxY minX maxX phi0 tof xy0 = f.effectiveImg V vx vy r minX maxX minY maxY phi0 tof xy0 :=
+  effectiveImg_symm f V vy vx r minY maxY minX maxX phi0 tof xy0
 
 /-- **the symmetries that exchange x and y are in force only for (nearly) equal x and y voxel sizes**: whenever the
     constructor leaves `do_symmetry_90degrees_min_phi` on — whatever was requested, whatever the data — the two voxel
-    sizes differ by at most `2.E-3F` plus half a unit in the last place of their `float` difference (`2⁻³³` mm).
+    sizes differ by at most `2.E-3F` plus half a unit in the last place of their `float` difference (`2⁻³³` mm); with
+    the index-range guard of the proposed repair (`r = true`) the index ranges in x and y are the same as well.
     The bound is not 0: the geometric theorem `C03_lor_equivariant_findSymOp` needs `cx = cy` exactly
     (`LorGeo.Agrees.square`); rows derived by the x/y exchanging operations for sizes that differ within the bound are
-    the known finding `unequal-xy-voxel-sizes-within-guard-tolerance:xy-exchanging-symmetry` of the oracle. -/
-theorem C03_xy_swap_only_for_near_square_voxels (f : Flags) (V : Int) (vy vx : Rat) (phi0 tof xy0 : Bool)
-    (h : (f.effectiveVox V vy vx phi0 tof xy0).d90 = true) : |vy - vx| ≤ twoEm3F + pow2 (-33) :=
-  squareVoxels_close vy vx (effectiveVox_d90 f V vy vx phi0 tof xy0 h)
+    the known finding `unequal-xy-voxel-sizes-within-guard-tolerance:xy-exchanging-symmetry` of the oracle, and without
+    the index-range guard (`r = false`, the pinned tree) nothing relates the two index ranges: known finding
+    `interpolation-matrix:unequal-xy-index-ranges:xy-exchanging-symmetry`. -/
+theorem C03_xy_swap_only_for_near_square_voxels (f : Flags) (V : Int) (vy vx : Rat) (r : Bool) (minY maxY minX maxX : Int)
+    (phi0 tof xy0 : Bool) (h : (f.effectiveImg V vy vx r minY maxY minX maxX phi0 tof xy0).d90 = true) :
+    |vy - vx| ≤ twoEm3F + pow2 (-33) ∧ (r = true → minY = minX ∧ maxY = maxX) :=
+  ⟨squareVoxels_close vy vx (effectiveImg_d90 f V vy vx r minY maxY minX maxX phi0 tof xy0 h).1,
+   (effectiveImg_d90 f V vy vx r minY maxY minX maxX phi0 tof xy0 h).2⟩
 
 /-- "after ... setting the matrix up again for another geometry": **`set_up` for a geometry other than the one the object
     is set up for never takes the "already set up with same characteristics" short cut** — however the two are related
@@ -459,15 +466,18 @@ example : cacheKey ⟨0, 0, 3, 2, 0⟩ ≠ cacheKey ⟨0, 0, 3, -2, 0⟩ ∧ InB
   refine ⟨by decide, by decide, by decide, by decide⟩
 
 /-- equal voxel sizes pass the guard (90° symmetry stays on for 8 views), sizes 2.2 / 2 mm do not — whichever of the two
-    is the larger one; and the bound of `C03_xy_swap_only_for_near_square_voxels` holds with room for the first -/
-example : (Flags.effectiveVox ⟨true, true, true, true, true⟩ 8 2 2 true false true).d90 = true ∧
-    (Flags.effectiveVox ⟨true, true, true, true, true⟩ 8 (22 / 10) 2 true false true).d90 = false ∧
-    (Flags.effectiveVox ⟨true, true, true, true, true⟩ 8 2 (22 / 10) true false true).d90 = false ∧
-    (Flags.effectiveVox ⟨true, true, true, true, true⟩ 8 2 (22 / 10) true false true).d180 = true := by
+    is the larger one (the 180° symmetry stays); index ranges -3..3 / -4..4 switch it off only with the index-range guard -/
+example : (Flags.effectiveImg ⟨true, true, true, true, true⟩ 8 2 2 false (-3) 3 (-3) 3 true false true).d90 = true ∧
+    (Flags.effectiveImg ⟨true, true, true, true, true⟩ 8 (22 / 10) 2 false (-3) 3 (-3) 3 true false true).d90 = false ∧
+    (Flags.effectiveImg ⟨true, true, true, true, true⟩ 8 2 (22 / 10) false (-3) 3 (-3) 3 true false true).d90 = false ∧
+    (Flags.effectiveImg ⟨true, true, true, true, true⟩ 8 2 (22 / 10) false (-3) 3 (-3) 3 true false true).d180 = true ∧
+    (Flags.effectiveImg ⟨true, true, true, true, true⟩ 8 2 2 false (-4) 4 (-3) 3 true false true).d90 = true ∧
+    (Flags.effectiveImg ⟨true, true, true, true, true⟩ 8 2 2 true (-4) 4 (-3) 3 true false true).d90 = false ∧
+    (Flags.effectiveImg ⟨true, true, true, true, true⟩ 8 2 2 true (-3) 3 (-3) 3 true false true).d90 = true := by
   have h1 : squareVoxels 2 2 = true := squareVoxels_self 2
   have h2 : squareVoxels (22 / 10) 2 = false := squareVoxels_far _ _ (by rw [pow2_eq_zpow]; unfold twoEm3F; norm_num [abs_of_pos])
   have h3 : squareVoxels 2 (22 / 10) = false := by rw [squareVoxels_symm]; exact h2
-  unfold Flags.effectiveVox
+  unfold Flags.effectiveImg
   rw [h1, h2, h3]
   decide
 
